@@ -190,7 +190,12 @@ def blank(prog, run):
         else:
             # broadcast form: np.where(pred, nan, V) / np.where(pred[None, :], nan, V)
             c0 = cp
-            if isinstance(c0, ast.Subscript) and isinstance(c0.slice, ast.Tuple) and len(c0.slice.elts) == 2:
+            if isinstance(c0, ast.Call) and isinstance(c0.func, ast.Name) and c0.func.id in (astq.ROWMASK, astq.COLMASK) and len(c0.args) == 1:
+                # functional form of an in-place masked store: V[:, pred] = nan (columns) / V[pred] = nan (rows)
+                if c0.func.id == astq.ROWMASK:
+                    okc = False          # rows (components) blanked, not the columns (eigenvectors)
+                c0 = c0.args[0]
+            elif isinstance(c0, ast.Subscript) and isinstance(c0.slice, ast.Tuple) and len(c0.slice.elts) == 2:
                 a0, a1 = c0.slice.elts
                 if isinstance(a0, ast.Constant) and a0.value is None and astq.is_full_slice(a1):
                     c0 = c0.value
